@@ -95,6 +95,9 @@ class Gen:
             elif x < 0.29:
                 # a value that is itself callable
                 answers.append({'callobj': s})
+            elif x < 0.31:
+                # a one-shot iterator as the value (a cursor): true
+                answers.append({'iterobj': s})
             elif x < 0.33:
                 answers.append({'boolobj': s, 'truth': r.random() < 0.5})
             elif x < 0.40:
@@ -200,8 +203,12 @@ class Gen:
                                        'how': 'name'}}
         self.calls += 1
         s = 'K%d' % self.calls
-        self.script[s] = r.choice([{'tok': s}, {'v': 0}, {'v': ''},
-                                   {'v': None}, {'v': [1]}])
+        self.script[s] = dict(r.choice([{'tok': s}, {'v': 0}, {'v': ''},
+                                        {'v': None}, {'v': [1]}]))
+        if r.random() < 0.5:
+            # REQUEST.set(...) and the like: the mapping the template was
+            # called with gains or loses a key
+            self.script[s]['grow'] = r.choice([1, 1, -1])
         return {'k': 'call', 'c': {'site': s, 'how': r.choice(
             ['name', 'expr', 'call'])}}
 
@@ -293,6 +300,10 @@ class Gen:
         self.script[site] = {'rot': [r.choice(TRUTHY + [{'tok': site}]),
                                      r.choice(FALSY),
                                      r.choice(TRUTHY + FALSY)]}
+        if r.random() < 0.3:
+            # now and then the key is not there at all when asked for (a
+            # session that has not got it yet), and there the next time
+            self.script[site]['rot'].insert(r.randrange(3), {'undef': 1})
         c = {'site': key, 'how': 'name'}
 
         def ref_body():
@@ -390,14 +401,15 @@ def run_real(case, prep, plan, shift):
     env.extra_names.update(PLAIN)
     kw = env.namespace(prep['names'])
     try:
+        env.shared_map = {'pre1': 1}
         if case.get('mode') == 'sub':
             md = TemplateDict()
-            md._push({'pre1': 1})
+            md._push(env.shared_map)
             md.guarded_getattr = None
             md.guarded_getitem = None
             res = prep['top'](None, md, **kw)
         else:
-            res = prep['top'](None, {'pre1': 1}, **kw)
+            res = prep['top'](None, env.shared_map, **kw)
         outcome = ['val', M.describe(res)]
     except BaseException as e:
         outcome = ['raise', type(e).__name__]
